@@ -58,6 +58,9 @@ def isTerminated (t : Thread) : Bool := t.state == .terminated
 def setRunnable (t : Thread) : Thread := { t with state := .runnable false }
 def setBlocked (t : Thread) : Thread := { t with state := .blocked }
 def setTerminated (t : Thread) : Thread := { t with state := .terminated }
+/-- what a release does to a thread whose pending `operation` names the released object: it is woken only if
+it is blocked (the field may be left over from an earlier operation: repair of finding F18) -/
+def wake (t : Thread) : Thread := if t.isBlocked then t.setRunnable else t
 /-- `Thread::set_yield` (`id` is the thread's own index) -/
 def setYield (t : Thread) (id : Nat) : Thread :=
   { t with state := .yield, lastYield := some (t.causality.get id), yieldCount := t.yieldCount + 1 }
